@@ -23,7 +23,7 @@ ID = "C13"
 RULE = (
     "Request targets from an adversarial path grammar (real collection names, '..', '.', empty segment, %2e%2e, %2E., ..%2f, %2f, %5c.., doubly encoded ..%252f and %252e%252e, several encoded climbs inside one segment, '..;x', 300-char segment, 'etc', names of sentinel "
     "directories that exist next to the data directory - including data.bak, whose name starts with the root's own name - and '.git'; 1-8 segments after a real base path, optional trailing slash, "
-    "optional route prefix, targets without leading '/') x method {GET, HEAD, PUT, POST, DELETE, MKCOL, extended MKCOL, MKCALENDAR, PROPFIND Depth 0/1, PROPPATCH, REPORT multiget (hrefs from the same "
+    "optional route prefix, targets without leading '/'; and the absolute file-system path of a sentinel (or of the data directory itself) behind one to four slashes) x method {GET, HEAD, PUT, POST, DELETE, MKCOL, extended MKCOL, MKCALENDAR, PROPFIND Depth 0/1, PROPPATCH, REPORT multiget (hrefs from the same "
     "grammar), sync, query, OPTIONS}; a third of the PUT/POST bodies carry a path-like UID (relative climbs, '..', an absolute name inside the harness' scratch area, the sibling data.bak, "
     "encoded climbs) and are mostly sent to collections that exist. Engine A: raw bytes (over a unix-domain socket) to a real listening `python -m xandikos`-equivalent process started through a launcher that installs an audit hook; engine B: the WSGI callable "
     "in-process with PATH_INFO as a WSGI server decodes it (dot segments kept, %2f decoded) under an audit hook. Oracles: (1) a snapshot (names, hashes) of everything around the data directory "
@@ -38,6 +38,18 @@ BASES = ["", "/user", "/user/calendars", "/user/calendars/calendar", "/user/cont
 METHODS = ["GET", "HEAD", "PUT", "POST", "DELETE", "MKCOL", "MKCOL-ext", "MKCALENDAR", "PROPFIND0", "PROPFIND1", "PROPPATCH", "REPORT-multiget", "REPORT-sync", "REPORT-query", "OPTIONS"]
 
 ICS = b"BEGIN:VCALENDAR\r\nVERSION:2.0\r\nPRODID:-//xv//c13//EN\r\nBEGIN:VEVENT\r\nUID:%s\r\nDTSTART:20200101T000000Z\r\nSUMMARY:c13\r\nEND:VEVENT\r\nEND:VCALENDAR\r\n"
+
+
+ABS_TOKENS = ["@VICTIM@", "@VICTIM@", "@VICTIM@", "@SECRET@", "@BAK@", "@ESC@", "@DATA@"]
+
+
+def expand_abs(t, scratch):
+    """Replace the tokens by absolute paths (without their leading '/') of the sentinels of this run."""
+    if "@" not in t:
+        return t
+    for tok, name in (("@VICTIM@", "victim"), ("@SECRET@", "secret"), ("@BAK@", "data.bak"), ("@ESC@", "esc"), ("@DATA@", "data")):
+        t = t.replace(tok, urllib.parse.quote(os.path.join(scratch, name).lstrip("/")))
+    return t
 
 
 HOSTILE_UIDS = ["climb", "climb-ext", "climb-deep", "dotdot", "abs", "sibling", "encoded"]
@@ -74,6 +86,9 @@ def target(draw, prefix):
         # a single dangerous last segment directly below an existing collection
         base = draw(st.sampled_from(["/user/calendars/calendar", "/user/contacts/addressbook", "/user/calendars", "/user"]))
         return prefix.rstrip("/") + base + "/" + draw(st.sampled_from(TERMINALS))
+    if draw(st.integers(0, 7)) == 0:
+        # the absolute file-system path of something next to the data directory, behind 1-4 slashes
+        return prefix.rstrip("/") + draw(st.sampled_from(["/", "//", "//", "///", "///", "////"])) + draw(st.sampled_from(ABS_TOKENS)) + draw(st.sampled_from(["", "/", "/ev.ics", "/ev.ics", "/x.ics", "/new.ics", "/a.txt", "/.git/HEAD"]))
     base = draw(st.sampled_from(BASES))
     n = draw(st.integers(1, 8))
     segs = [draw(st.sampled_from(SEGMENTS)) for _ in range(n)]
@@ -447,6 +462,10 @@ def run_session_with_twin(engine, prefix, reqs):
                             allow_exact.add(rp)
         snap0 = snapshot_outside(server.scratch)
         for req in reqs:
+            orig = req
+            if "@" in req["t"] or any("@" in h for h in req.get("hrefs", [])):
+                req = dict(req, t=expand_abs(req["t"], server.scratch), hrefs=[expand_abs(h, server.scratch) for h in req.get("hrefs", [])])
+                out["stats"][f"{engine}:absolute-path-target"] += 1
             if req.get("uidv"):
                 req = dict(req, abs_base=top_of(server.scratch))  # absolute names point into the harness' own scratch area
                 out["stats"][f"{engine}:hostile-uid:{req['m']}"] += 1
@@ -469,7 +488,9 @@ def run_session_with_twin(engine, prefix, reqs):
             lines = server.new_audit_lines()
             out["evaluations"] += 1
             out["stats"][f"{engine}:{req['m']}:{r.status // 100}xx"] += 1
-            case = {"engine": engine, "prefix": prefix, "request": {k: v for k, v in req.items() if k != "abs_base"}}
+            case = {"engine": engine, "prefix": prefix, "request": {k: v for k, v in orig.items() if k != "abs_base"}}
+            if orig is not req and "@" in orig["t"] + "".join(orig.get("hrefs", [])) and "@DATA@" not in orig["t"]:
+                out["nontrivial"].add(f"{orig['m']} {orig['t']} {orig.get('hrefs', '')}")
             if req.get("uidv") and r.status in (200, 201, 204):
                 out["nontrivial"].add(f"{req['m']} {tgt} uid={req['uidv']}")
             if escapes_root(tgt, prefix) or any(escapes_root(h, prefix) for h in req.get("hrefs", [])):
